@@ -38,6 +38,9 @@ def «at» {α : Type} [Inhabited α] (l : List α) (i : Int) : α := l.getD i.t
 /-- `x[lo:hi]` (meaningful when `sliceOK`) -/
 def slice {α : Type} (l : List α) (lo hi : Int) : List α := (l.take hi.toNat).drop lo.toNat
 
+/-- `x[i] = v` (meaningful when `idxOK`) -/
+def set {α : Type} (l : List α) (i : Int) (x : α) : List α := l.set i.toNat x
+
 /-- the `int` a Go search function returns: `-1` = not found -/
 def optIdx : Option Nat → Int
   | some i => (i : Nat)
